@@ -211,11 +211,12 @@ CmdVerdict(cmd, orig) ==
 (* family: adversarial strings in the four slots *)
 Alphabet == {97, cSQ, cDQ, cBS, cDOLLAR, cBT, cSP, cNL, cAT, cSEMI, cCOLON, cAMP, cPCT}
 Strs(n) == UNION {[1..k -> Alphabet] : k \in 0..n}
-Slots == {"header", "query", "path", "body"}
+BaseSlots == {"header", "query", "path", "body"}                \* the design invariants below speak about these
+Slots == BaseSlots \cup {"cookie", "json", "form"}              \* cookie value, JSON string body, urlencoded form field
 Elements(n, m) == {[slot |-> sl, s |-> s] : sl \in Slots, s \in Strs(n)}
                     \cup {[slot |-> sl, s |-> s] : sl \in {"header", "body"}, s \in [1..m -> Alphabet]}
 (* field values: no CR / LF, no leading or trailing blanks (RFC 7230 3.2); path values are non-empty *)
-InFragment(e) == CASE e.slot = "header" -> /\ \A i \in 1..Len(e.s) : e.s[i] # cNL
+InFragment(e) == CASE e.slot \in {"header", "cookie"} -> /\ \A i \in 1..Len(e.s) : e.s[i] # cNL
                                            /\ (e.s = <<>> \/ (~IsSpace(e.s[1]) /\ ~IsSpace(e.s[Len(e.s)])))
                    [] e.slot = "path" -> e.s # <<>>
                    [] OTHER -> TRUE
@@ -253,9 +254,10 @@ Spec == Init /\ [][Next]_el
 (* design invariants *)
 TypeOK == el.slot \in Slots
 QuoteRoundTrip == LET t == Tokens(<<97, cSP>> \o ShQuote(el.s)) IN t.ok /\ ~t.op /\ ~t.glob /\ t.words = <<<<97>>, el.s>>
-RefFaithful == InFragment(el) => CmdVerdict(RefCmd(el), ReqOf(el)).v = "T"
-NaivePitfalls == InFragment(el) =>
+RefFaithful == (el.slot \in BaseSlots /\ InFragment(el)) => CmdVerdict(RefCmd(el), ReqOf(el)).v = "T"
+NaivePitfalls == (el.slot \in BaseSlots /\ InFragment(el)) =>
                     ((CmdVerdict(NaiveCmd(el), ReqOf(el)).v = "T")
                        <=> ~((el.slot = "header" /\ el.s = <<>>) \/ (el.slot = "body" /\ el.s # <<>> /\ Head(el.s) = cAT)))
-Export == PrintT(<<"CASE", ToJson([slot |-> el.slot, s |-> el.s, fragment |-> InFragment(el), ref |-> RefCmd(el)])>>)
+Export == PrintT(<<"CASE", ToJson([slot |-> el.slot, s |-> el.s, fragment |-> InFragment(el),
+                                   ref |-> IF el.slot \in BaseSlots THEN RefCmd(el) ELSE <<>>])>>)
 =============================================================================
